@@ -36,6 +36,10 @@ def source_stamp():
         h.update(n.encode() + b"\0")
         with open(n, "rb") as f:
             h.update(f.read())
+    # the translators themselves: a changed translator must not be served stale facts
+    for n in sorted(glob.glob(os.path.join(common.VERIF, "harness", "*.py"))):
+        with open(n, "rb") as f:
+            h.update(f.read())
     return h.hexdigest()
 
 
